@@ -35,6 +35,7 @@ def unboundedLoops : List String := [
 def panicSites : List String := [
   "csv.OptionalColumn.Read: index c.f.currentRow.cells[c.i]  [unguarded: csv: index []string]",
   "csv.OptionalColumn.ReadOr: index c.f.currentRow.cells[c.i]  [unguarded: csv: index []string]",
+  "csv.RequiredColumn.Read: index c.f.currentRow.cells[c.i]  [unguarded: csv: index []string]",
   "csv.RequiredColumn.Read: index r.cells[c.i]  [guard: bounds-checked]",
   "extensions/nyctalerts.buildMetadata: assert proto.GetExtension(alert, gtfsrt.E_MercuryAlert).(*gtfsrt.MercuryAlert)  [unguarded: extensions/nyctalerts: assert interface{}]",
   "extensions/nyctalerts.buildMetadata: index activePeriodTranslations[0]  [guard: len-checked]",
